@@ -649,6 +649,8 @@ class Machine:
             # degrees -> radians inside sky_within may move a pixel-centre probe by an ulp; that never crosses a pixel
         if scalar:
             ans = s.r.sky_within(float(ra[0]), float(dec[0]), degin=deg)
+        elif self.ch.chance("as_lists", 1, 3):
+            ans = s.r.sky_within([float(x) for x in ra], [float(x) for x in dec], degin=deg)
         else:
             ans = s.r.sky_within(ra, dec, degin=deg)
         ans = np.atleast_1d(np.asarray(ans))
